@@ -1,4 +1,5 @@
 #!/bin/bash
+# needs a scratch copy of the repository first:  git -C /repo worktree add --detach /tmp/repodev HEAD   (remove it afterwards: git -C /repo worktree remove --force /tmp/repodev)
 # usage: tools_devbenign.sh <benign-id> <Cxx>   apply a behaviour-preserving change to the scratch copy /tmp/repodev and run the quick check
 s=$1; p=$2
 cd /tmp/repodev || exit 3
